@@ -15,7 +15,7 @@ STEP_LIMIT = 300_000
 BOUNDS = {
     'quick': 'function terms add/subtract/multiply/divide over (symbolic i64, 3), (2.5, 4), (7, 2), (0.1, 0.2), (0.5, 0.25), (symbolic f64 in [-1e6, 1e6], 0.25) and join(a, b), join([a, b], "!") paired with: '
              'unbound variable, variable bound to the value / to another value, equal constant, different constant of the same type (a solver variable: any other i64 / any other f64, however close), atom, complex term, list, `$_`, '
-             'a second function term of equal value and one of different value; the unbound partner has a lower id than variables that are already bound; the arguments are also given through chains of two bound variables; unify(F, T) and unify(T, F) through Unifiable::unify and through the `unify` built-in goal; '
+             'a second function term of equal value and one of different value; the numerically equal value of the other numeric type (3 against 3.0) as a constant and as a second function; the unbound partner has a lower id than variables that are already bound; the arguments are also given through chains of two bound variables; unify(F, T) and unify(T, F) through Unifiable::unify and through the `unify` built-in goal; '
              'oracle: the real unify on (value of F, T with its own function evaluated)',
     'thorough': 'same plus 3-argument functions and partners reached through chains of 2 variables',
 }
@@ -28,7 +28,7 @@ FUNCS = [
     ('join', [('q', 'a'), ('q', 'b')]), ('join', [('lst', ('a', 'b')), ('q', '!')]),
     ('add', [('r', 0.1), ('r', 0.2)]), ('multiply', [('r', 0.5), ('r', 0.25)]), ('subtract', [('symf',), ('r', 0.25)]),
 ]
-PARTNERS = ['unbound', 'bound-equal', 'bound-different', 'equal', 'different', 'atom', 'cplx', 'list', 'anon', 'func-equal', 'func-different']
+PARTNERS = ['unbound', 'bound-equal', 'bound-different', 'equal', 'different', 'atom', 'cplx', 'list', 'anon', 'func-equal', 'func-different', 'func-other-type', 'other-type']
 
 
 def cases(tier, seed):
@@ -94,6 +94,17 @@ def run(drv, case):
     elif p == 'cplx': T = ('cplx', (('atom', 'f'), ('atom', 'a')))
     elif p == 'list': T = ('plist', (('atom', 'a'),), None)
     elif p == 'anon': T = ('anon',)
+    elif p in ('func-other-type', 'other-type'):
+        # the numerically equal value of the other numeric type (3 against 3.0), as a constant and as the value of a second function
+        if val[0] == 'int':
+            from ..refsld import to_f
+            o = ('float', to_f(val[1]) if isinstance(val[1], Sym) else float(val[1])); zero = ('float', 0.0)
+        elif val[0] == 'float' and not isinstance(val[1], Sym) and val[1] == int(val[1]):
+            o = ('int', int(val[1])); zero = ('int', 0)
+        else:
+            return {'tags': ['no-counterpart-of-the-other-type'], 'nontrivial': False}
+        if p == 'other-type': T = o; tags.append('partner-constant')
+        else: T = ('func', 'add', (o, zero)); Tprime = o; tags.append('partner-function')
     else:
         tags.append('partner-function')
         if val[0] in ('int', 'float'):
